@@ -15,7 +15,12 @@ THEOREMS = [
     "Spowtd.zeta_interval_keys_distinct",
     "Spowtd.interval_rows_have_levels",
 ]
-TRUSTED_BASE = TRUSTED
+TRUSTED_BASE = TRUSTED + [
+    "translator tools/gen_schema.py: spowtd/schema.sql as parsed by SQLite itself (PRAGMA table_info / index_list / "
+    "foreign_key_list; CHECK clauses and view bodies cut from the stored CREATE text) -> lean/SchemaTie/Generated.lean; "
+    "the declarations the proofs assume are re-checked by `rfl` on every run (SchemaTie/Classify.lean)",
+]
+SCHEMA_TIE = ('Classify',)
 ASSUMPTIONS = ASSUME
 RULE = ("records generated as sequences of events (dry spells, light rain, storms with lagged rises, unexplained "
         "rises, multi-burst storms, multi-rise storms) with per-step noise, fully random class sequences, hand-written "
